@@ -66,6 +66,9 @@ LEAVES = [
     ("tag_test", "k", "f_is_a"),
     ("tag_test", "k", "f_notnone"),
     ("tag_map", "k", "f_upper", "==", "A"),
+    ("tags_mapkey", "f_ident", "k", "==", "a"),
+    ("tags_mapkey", "f_ident", "j", "==", "a"),
+    ("tags_map", "f_keys", "==", "k"),
     ("noop", "tag"),
     ("field", "f", "<", SYM),
     ("field", "f", "<=", SYM),
@@ -76,7 +79,7 @@ LEAVES = [
     ("field_map", "f", "f_neg", "<", SYM),
     ("noop", "field"),
 ]
-REPS = [("time", ">=", SYM), ("tag", "k", "==", SYM), ("field", "f", "<", SYM), ("tag_re", "k", "matches", "A", 0), ("tag_re", "k", "matches", "A", re.I), ("tag_map", "k", "f_upper", "==", "A")]
+REPS = [("time", ">=", SYM), ("tag", "k", "==", SYM), ("field", "f", "<", SYM), ("tag_re", "k", "matches", "A", 0), ("tag_re", "k", "matches", "A", re.I), ("tag_map", "k", "f_upper", "==", "A"), ("tags_mapkey", "f_ident", "k", "==", "a")]
 # same-kind leaf pairs with both operators symbolic (6 x 6 operator pairs each)
 OPLEAVES = [("time", OP, SYM), ("meas", OP, SYM), ("tag", "k", OP, SYM), ("field", "f", OP, SYM)]
 
@@ -123,7 +126,7 @@ def has_map(q):
         return has_map(q[1])
     if k in ("and", "or"):
         return has_map(q[1]) or has_map(q[2])
-    return k.endswith("_map")
+    return k.endswith("_map") or k.endswith("_mapkey")
 
 
 def _point(h):
